@@ -71,8 +71,8 @@ def entries_for(plan):
                     "jws.deserialize_compact+again", "jwt.decode+again"]
         return ["rfc7797.deserialize_compact", "rfc7797.deserialize_compact+payload", "rfc7797.deserialize_compact+otherpayload", "rfc7797.deserialize_compact+payload+again"]
     if plan["b64"] is None:
-        return ["jws.deserialize_json", "rfc7797.deserialize_json", "jws.deserialize_json+again"]
-    return ["rfc7797.deserialize_json", "rfc7797.deserialize_json+again"]
+        return ["jws.deserialize_json", "rfc7797.deserialize_json", "jws.deserialize_json+again", "rfc7797.deserialize_json+registry"]
+    return ["rfc7797.deserialize_json", "rfc7797.deserialize_json+again", "rfc7797.deserialize_json+registry"]
 
 
 def _taint(o):
@@ -128,6 +128,10 @@ def call_entry(entry, token, keyarg, payload_arg=None, other_token=None):
     if entry == "jws.deserialize_json":
         o = jws.deserialize_json(tok, keyarg, algorithms=ALL_JWS)
         return o.payload, [m.protected or {} for m in o.members], False
+    if entry == "rfc7797.deserialize_json+registry":
+        # the caller hands over the RFC 7797 registry itself (it knows "b64") instead of a list of names
+        o = rfc7797.deserialize_json(tok, keyarg, registry=rfc7797.JWSRegistry(algorithms=ALL_JWS))
+        return o.payload, [m.protected or {} for m in o.members], False
     if entry == "rfc7797.deserialize_json":
         o = rfc7797.deserialize_json(tok, keyarg, algorithms=ALL_JWS)
         return o.payload, [m.protected or {} for m in o.members], False
@@ -160,6 +164,8 @@ def judge(entry, token, plan, keymode, payload_arg=None, none_allowed=False, oth
     rfc7797 = entry.startswith("rfc7797")
     if entry.endswith("+again"):
         entry = entry[:-len("+again")]
+    if entry.endswith("+registry"):
+        entry = entry[:-len("+registry")]
     try:
         detached = payload_arg if entry.endswith(("+payload", "+otherpayload")) else None
         if isinstance(token, (str, bytes)):
@@ -432,6 +438,20 @@ NONE_KINDS = ["none-empty-sig", "none-keep-sig", "none-in-header-keep-rest"]
 
 
 def enumerate_faults(token, plan, pairs, stride_hp: int):
+    # structural faults first: they are few and must not be cut off by the time budget
+    if isinstance(token, (str, bytes)):
+        for k in NONE_KINDS:
+            yield {"kind": k}
+    else:
+        for k in STRUCTURAL:
+            yield {"kind": k}
+        n = len(token.get("signatures", []))
+        for i in range(n):
+            yield {"kind": "corrupt-one", "i": i, "byte": pairs[0][0]}
+            yield {"kind": "drop-one", "i": i}
+            yield {"kind": "unprotected-b64-false", "i": i}
+        for alg in ("none", "HS256", plan["members"][0]["alg"]):
+            yield {"kind": "unprotected-alg", "alg": alg}
     raw_payload = plan["b64"] is False
     for addr, kind in _segs(token):
         raw = raw_payload and kind == "payload"
@@ -464,19 +484,6 @@ def enumerate_faults(token, plan, pairs, stride_hp: int):
             for a, b in pairs[:2]:
                 yield {"kind": "flip2", "addr": list(addr), "seg": kind, "bit": a % nbits, "bit2": b % nbits}
         yield {"kind": "splice", "addr": list(addr), "seg": kind}
-    if isinstance(token, (str, bytes)):
-        for k in NONE_KINDS:
-            yield {"kind": k}
-    else:
-        for k in STRUCTURAL:
-            yield {"kind": k}
-        n = len(token.get("signatures", []))
-        for i in range(n):
-            yield {"kind": "corrupt-one", "i": i, "byte": pairs[0][0]}
-            yield {"kind": "drop-one", "i": i}
-            yield {"kind": "unprotected-b64-false", "i": i}
-        for alg in ("none", "HS256", plan["members"][0]["alg"]):
-            yield {"kind": "unprotected-alg", "alg": alg}
 
 
 def fault_class(fault) -> str:
@@ -590,6 +597,10 @@ def run_shard(ctx, spec):
         if len(pl) > 48:
             plan = dict(plan, payload_hex=pl[:48].decode("utf-8", "ignore").encode().hex() if plan["b64"] is False else pl[:48].hex())
             case = dict(case, plan=plan)
+        if plan["b64"] is False and case["pairs"][1][0] % 2 == 0:
+            # an unencoded payload that happens to be valid base64url text: only then does it matter whether a verifier decodes it
+            plan = dict(plan, payload_hex=[b"aGVsbG8", b"abcd", b"QUJD", b"AAAA-_-_", b"eyJhIjoxfQ"][case["pairs"][1][1] % 5].hex())
+            case = dict(case, plan=plan)
         try:
             mplan, keymode, token, token2 = mint(case)
         except UnicodeDecodeError:
@@ -597,7 +608,7 @@ def run_shard(ctx, spec):
             return
         pl = bytes.fromhex(mplan["payload_hex"])
         ents = entries_for(mplan)
-        fault_ents = [e for e in ents if not e.endswith(("+otherpayload", "+again"))]
+        fault_ents = [e for e in ents if not e.endswith(("+otherpayload", "+again", "+registry"))]
         entry = fault_ents[case["entry"] % len(fault_ents)]
         if entry == "jwt.decode":
             try:
